@@ -1,5 +1,88 @@
 package main
 
-func thoroughExtras(id string, pc *propCheck, repo, verif string, r *Report, extra map[string]any) {}
+import (
+	"encoding/json"
+	"fmt"
+	"os"
+	"os/exec"
+	"path/filepath"
+)
 
-func runSelftest(which, repo, verif string) int { return 0 }
+// thoroughExtras: what the thorough tier adds to the quick rules.
+//
+//  1. the same rules over the program as built for GOARCH=386 (32-bit word size:
+//     alignment of 64-bit atomics, build-constrained files);
+//  2. the self-validation catalogue for this property: every seeded change that
+//     breaks the property (seeded/<id>, written by sub-agents that saw only the
+//     property text) must be reported by this check, and every neutral variant
+//     (selftest/neutral, behaviour-preserving refactorings) must leave it silent.
+//     The outcome is recorded in the evidence; a regression of the machinery
+//     makes the run fail with exit 2 (the check, not the property, is broken).
+func thoroughExtras(id string, pc *propCheck, repo, verif string, r *Report, extra map[string]any) {
+	// 1. GOARCH=386
+	p386 := Load(LoadOpts{RepoDir: repo, NeedSSA: pc.NeedSSA, GOARCH: "386"})
+	r386 := NewReport(id, r.Tier, r.Seed)
+	pc.Run(p386, r386)
+	curProg = nil
+	primary := map[string]bool{}
+	for _, o := range r.Obs {
+		primary[o.Rule+"|"+o.Key] = o.OK
+	}
+	n386, nNew := 0, 0
+	for _, o := range r386.Obs {
+		n386++
+		if ok, seen := primary[o.Rule+"|"+o.Key]; seen && ok == o.OK {
+			continue
+		}
+		if !o.OK {
+			nNew++
+			if o.Undecided {
+				r.Undecided(o.Rule, "GOARCH=386|"+o.Key, o.Pos, o.Detail)
+			} else {
+				r.Fail(o.Rule, "GOARCH=386|"+o.Key, o.Pos, o.Detail)
+			}
+		}
+	}
+	extra["goarch_386"] = map[string]any{"obligations": n386, "verdicts_differing_from_amd64": nNew, "packages": p386.NumPackages}
+	r.Stat("thorough.obligations re-decided for GOARCH=386", n386)
+
+	// 2. self-validation catalogue
+	out := filepath.Join(os.TempDir(), fmt.Sprintf("selftest-%s-%d.json", id, os.Getpid()))
+	defer os.Remove(out)
+	cmd := exec.Command("python3", filepath.Join(verif, "selftest", "run_catalogue.py"), "--prop", id, "--json", out, "--no-build", "--jobs", "8")
+	cmd.Env = append(os.Environ(), "VERIF_REPO="+repo)
+	b, err := cmd.CombinedOutput()
+	if err != nil {
+		fmt.Fprintf(os.Stderr, "self-validation catalogue could not run: %v\n%s\n", err, b)
+		panic(envError{"self-validation catalogue could not run"})
+	}
+	var sum map[string]any
+	if jb, err := os.ReadFile(out); err == nil {
+		_ = json.Unmarshal(jb, &sum)
+	}
+	if sum == nil {
+		panic(envError{"self-validation catalogue produced no result"})
+	}
+	extra["self_validation"] = sum
+	missed, _ := sum["seeded_missed"].([]any)
+	noisy, _ := sum["neutral_noisy"].([]any)
+	if sd, ok := sum["seeded_detected"].(float64); ok {
+		r.Stat("thorough.seeded changes of this property detected", int(sd))
+	}
+	if nv, ok := sum["neutral_variants"].(float64); ok {
+		r.Stat("thorough.neutral variants silent", int(nv)-len(noisy))
+	}
+	if len(missed) > 0 || len(noisy) > 0 {
+		fmt.Fprintf(os.Stderr, "SELF-VALIDATION REGRESSION for %s: missed seeded changes %v, neutral variants with alarms %v\n", id, missed, noisy)
+		r.selfRegression = true
+	}
+}
+
+func runSelftest(which, repo, verif string) int {
+	cmd := exec.Command("python3", filepath.Join(verif, "selftest", "run_catalogue.py"))
+	cmd.Stdout, cmd.Stderr = os.Stdout, os.Stderr
+	if err := cmd.Run(); err != nil {
+		return 2
+	}
+	return 0
+}
